@@ -3,7 +3,7 @@
    Tree::remove_node / append_pre_header / replace (TreeOps.v, Actions.v), for trees of any
    size and nesting.  `plug C x`: subtree x in the one-hole context C; `ctx_free id C`: no node
    of the context carries the id (ids come from the arena, one per node). *)
-From IweV Require Import Check_Norm NormFacts TreeOps Actions TreeOpsFacts Check_Act Check_C10 ActFacts.
+From IweV Require Import RelPathFacts Check_Norm NormFacts TreeOps Actions TreeOpsFacts Check_Act Check_C10 ActFacts.
 From Coq Require Import Permutation.
 Local Open Scope string_scope.
 Local Open Scope list_scope.
@@ -162,14 +162,35 @@ Check C09_self_inline_as_found_refuted :
   append_pre_header 1 (sec 1 "s" []) (sec 1 "s" []) = sec 1 "s" [sec 1 "s" []].
 Print Assumptions C09_self_inline_as_found_refuted.
 
-(* Links: an inline link is a raw url; the same url names different notes from different
-   directories, so inlining across directories retargets it. *)
-Theorem C09_links_cross_dir_refuted :
-  let url := "c" in from_rel_link_url url "d" = "d/c" /\ from_rel_link_url url "" = "c".
-Proof. exact inline_cross_dir_link. Qed.
-Check C09_links_cross_dir_refuted :
-  let url := "c" in from_rel_link_url url "d" = "d/c" /\ from_rel_link_url url "" = "c".
-Print Assumptions C09_links_cross_dir_refuted.
+(* Links (F-C09-cross-dir-inline, repaired): the inlined note's tree holds its inline links by key and the
+   projector writes them relative to the note they are written into; what is written resolves to the same key
+   from there - every key and directory of legal names, either extension.  (Formerly C09_links_cross_dir_refuted:
+   an inline link was a raw url, which names different notes from different directories.) *)
+Theorem C09_links_cross_dir_kept :
+  forall (ks ds : list string) (ext title : string) (lt : link_type) (l : list inline),
+    Forall RelPathFacts.good_name ks -> Forall RelPathFacts.good_name ds -> ext = MD \/ ext = "" ->
+    let K := join SEPS ks in let D := join SEPS ds in
+    is_ref_url K = true ->
+    rel_inline D (Link K title lt l) = Link (to_rel_link_url K D) title lt (map (rel_inline D) l) /\
+    from_rel_link_url (ref_url (to_rel_link_url K D) ext) D = K.
+Proof. exact inline_cross_dir_kept. Qed.
+Check C09_links_cross_dir_kept :
+  forall (ks ds : list string) (ext title : string) (lt : link_type) (l : list inline),
+    Forall RelPathFacts.good_name ks -> Forall RelPathFacts.good_name ds -> ext = MD \/ ext = "" ->
+    let K := join SEPS ks in let D := join SEPS ds in
+    is_ref_url K = true ->
+    rel_inline D (Link K title lt l) = Link (to_rel_link_url K D) title lt (map (rel_inline D) l) /\
+    from_rel_link_url (ref_url (to_rel_link_url K D) ext) D = K.
+Print Assumptions C09_links_cross_dir_kept.
+
+Theorem C09_links_cross_dir_witness :
+  rel_inline (key_parent "a") (to_ginline (key_parent "d/b") (Link "c" "" Regular [Str "c"])) = Link "d/c" "" Regular [Str "c"] /\
+  from_rel_link_url "d/c" (key_parent "a") = from_rel_link_url "c" (key_parent "d/b").
+Proof. exact inline_cross_dir_witness. Qed.
+Check C09_links_cross_dir_witness :
+  rel_inline (key_parent "a") (to_ginline (key_parent "d/b") (Link "c" "" Regular [Str "c"])) = Link "d/c" "" Regular [Str "c"] /\
+  from_rel_link_url "d/c" (key_parent "a") = from_rel_link_url "c" (key_parent "d/b").
+Print Assumptions C09_links_cross_dir_witness.
 
 (* the hypotheses of C09_extract are satisfiable: second sub-section of a section with text *)
 Example C09_extract_nonvacuous :
